@@ -2,7 +2,7 @@
    Only statements, each closed by [exact].  Model: Orm/Schema.v over Gen/ParseField.v (regenerated from
    wrapped_table.py / ormatic.py / wrapped_field.py on every run); Spec: Orm/SchemaSpec.v.
    [wfM] = the documented grammar; [topo M order] = the emission order lists every class once, parents first;
-   F = [F_attrnames], [F_inherited], [F_inherited_rel], [F_classnames] (complement of the defect classes, see _refuted). *)
+   F = [F_attrnames], [F_inherited], [F_classnames] (complement of the defect classes, see _refuted). *)
 From Coq Require Import List String Ascii Bool ZArith Permutation.
 From Krrood Require Import Base.Sx Orm.SchemaStr Orm.SchemaSpec Gen.ParseField Orm.Schema Orm.SchemaProofs Orm.SchemaWf.
 Import ListNotations.
@@ -84,12 +84,6 @@ Proof. exact tables_order_independent. Qed.
 Theorem C06_refuted_casefold : exists M order, wfM M = true /\ topo M order /\ wf_table_names_unique (gen M order) = false.
 Proof. exact refuted_casefold. Qed.
 
-(* the open defect class C06-p: the generated foreign-key column r_id of a reference r clashes with a reference or collection
-   field named r_id of an ancestor; the generator does not refuse it and the layer is not well-formed *)
-Theorem C06_refuted_inhrelalias : exists M order, wfM M = true /\ topo M order /\ refused (gen M order) = false
-  /\ wf_no_inherited_rel_clash (gen M order) = false /\ F_inherited_rel M = false.
-Proof. exact refuted_inhrelalias. Qed.
-
 (* regression examples for the repaired findings.  C06-a (c757abc): a collection of the own class is well-formed *)
 Example C06_fixed_selfcoll : wfM M_selfcoll = true /\ inF M_selfcoll = true /\ wf_assoc_columns (gen M_selfcoll M_selfcoll) = true
   /\ schema_wf (gen M_selfcoll M_selfcoll) = true /\ model_obs (gen M_selfcoll M_selfcoll) = spec_obs M_selfcoll.
@@ -103,6 +97,8 @@ Example C06_refused_discname : refused_as_specified M_discname. Proof. exact ref
 Example C06_refused_assocname : refused_as_specified M_assocname. Proof. exact refused_assocname. Qed.
 (* C06-n (5e556b1): the clash with a column of an ancestor's table is refused as well *)
 Example C06_refused_inhfkalias : refused_as_specified M_inhfkalias. Proof. exact refused_inhfkalias. Qed.
+(* C06-p (84214c3): ... and so is the clash with a relationship of an ancestor *)
+Example C06_refused_inhrelalias : refused_as_specified M_inhrelalias. Proof. exact refused_inhrelalias. Qed.
 
 (* C06-b was repaired in /repo (b804898): the former counter-model is now well-formed and read back as the Spec says *)
 Example C06_fixed_nobuiltin : wfM M_nobuiltin = true /\ inF M_nobuiltin = true /\ wf_imports (gen M_nobuiltin M_nobuiltin) = true
@@ -145,6 +141,5 @@ Print Assumptions C06_wf_fk_targets.
 Print Assumptions C06_generation_is_a_function.
 Print Assumptions C06_tables_order_independent.
 Print Assumptions C06_refuted_casefold.
-Print Assumptions C06_refuted_inhrelalias.
 Print Assumptions C06_impl_order_is_topo.
 Print Assumptions C06_emission_parents_first.
